@@ -211,9 +211,18 @@ def check_group_specifications(ctx: Ctx):
         ctx.decide("R12.6", init, init.node if init else None, construct_name, "the specification yields groups with exactly the given names, labels, kind and single-instance flag", (got == want) if got is not None else None, {"got": repr(got)[:300], "want": repr(want)[:300]})
 
 
+def _run_rule(ctx, name, fn):
+    """a sub-rule that cannot be evaluated is recorded as undecided; the remaining rules still run"""
+    try:
+        return fn(ctx)
+    except (Undecided, AnchorMissing) as e:
+        ctx.undecided(name, None, None, f"{name}:analysis", f"{type(e).__name__}: {e}")
+        return 0
+
+
 def check(ctx: Ctx):
-    check_grouped(ctx)
-    check_ungrouped(ctx)
+    _run_rule(ctx, "check_grouped", check_grouped)
+    _run_rule(ctx, "check_ungrouped", check_ungrouped)
     try:
         check_group_specifications(ctx)
     except (Undecided, AnchorMissing) as e:
